@@ -20,7 +20,7 @@ META = {
     "rule": ("full product N x scheduler x window x order x backend x olap x mode x record; oracle on every bin; plus the full grid "
              "of constructed results; non-trivial: bins with K>=2 whose reference scatter exceeds 1e3x its tolerance"),
     "exhaustive": True,
-    "bounds": {"quick": "kernel level: N=9, L in {2,4,6}, every ordered start sequence of length 2..4, low- and high-scatter records, NumPy chunk sizes 1,2,3,default; analyzer level: N in {16,33,64}; 4 schedulers; windows hann,kaiser200,custom; orders -1..2; numba+numpy; olap {0,.5,.8}; (Jdes,Kdes) in {(10,4),(30,2),(30,8)}; auto+cross; records id1/id2, seeded; constructed: M2 in {0,1e-9,2.5}, navg in {1,2,7,1000}, S2 in {.3,40}, fs in {1,1000}",
+    "bounds": {"quick": "kernel level: N=9, L in {2,4,6}, every ordered start sequence of length 2..4, low- and high-scatter records, NumPy chunk sizes 1,2,3,default; analyzer level: N in {16,33,64}; 4 schedulers; windows hann,kaiser200,custom; orders -1..2; numba+numpy; olap {0,.5,.8}; (Jdes,Kdes) in {(10,4),(30,2),(30,8)}; auto+cross; records id1/id2, seeded; constructed: M2 in {0,1e-300,1e-40,1e-9,2.5,1e40,1e300}, navg in {1,2,7,1000}, S2 in {.3,40}, fs in {1,1000,3e-8,4e7}",
                "thorough": "adds N in {100,257}"},
     "assumptions": ["statistical clause (agreement with analytic deviations for Gaussian noise) not decided by enumeration, not claimed"],
 }
@@ -171,9 +171,10 @@ def _constructed():
     from checks.c10 import build_result
 
     out = {"evals": 0, "nontrivial": 0, "failures": [], "samples": [], "extra": {"single_segment_bins": 0}}
-    for fs, S2, iscsd in itertools.product((1.0, 1000.0), (0.3, 40.0), (True, False)):
-        pts = [(0.5, n, 1.0, 2.0, 1.0) for n in (1, 2, 7, 1000) for _ in range(3)]
-        m2 = np.array([m for _ in (1, 2, 7, 1000) for m in (0.0, 1e-9, 2.5)])
+    M2S = (0.0, 1e-9, 2.5, 1e-300, 1e-40, 1e40, 1e300)   # scatter in ordinary and in extreme units
+    for fs, S2, iscsd in itertools.product((1.0, 1000.0, 3e-8, 4e7), (0.3, 40.0), (True, False)):
+        pts = [(0.5, n, 1.0, 2.0, 1.0) for n in (1, 2, 7, 1000) for _ in M2S]
+        m2 = np.array([m for _ in (1, 2, 7, 1000) for m in M2S])
         r = build_result(fs, S2, iscsd, pts, m2=m2.copy())
         n = np.array([p[1] for p in pts], dtype=float)
         want_var = m2 / n
@@ -200,5 +201,5 @@ def _constructed():
             out["failures"].append(fw.fail(f"constructed/{'csd' if iscsd else 'auto'}/{'+'.join(prob)}",
                                            f"constructed result fs={fs} S2={S2}: {prob}; got { {k: (None if v is None else np.asarray(v).tolist()) for k, v in got.items()} }",
                                            {"part": "constructed"}))
-    out["samples"].append({"constructed grid": "M2 in {0,1e-9,2.5} x navg in {1,2,7,1000} x S2 x fs x auto|cross"})
+    out["samples"].append({"constructed grid": "M2 in {0,1e-300,1e-40,1e-9,2.5,1e40,1e300} x navg in {1,2,7,1000} x S2 x fs x auto|cross"})
     return out
